@@ -9,7 +9,10 @@ Tie (model layer, generated modules of lib/modcorpus.py):
        as the independent re-encoder for the same choices;
  UPER  the X.691 reading of the model where it differs from the C's own encoding;
  OER   long-form length determinants with leading zero octets, padded quantities;
- XER   layout variants of the C's own BASIC/CANONICAL output (oracle on the C alone)."""
+ XER   layout variants of the C's own BASIC/CANONICAL output (oracle on the C alone);
+       VALUE-LEVEL variants (lib/c03_xval.py): every character of every string type in every legal spelling, hstring / bstring
+       bodies in either case with white space / comments, number and value items with white space around; expected DER computed
+       in Python; the text reader also against the extracted model (Rt/ResumeX.v, Rt/EntrefComplete.v)."""
 import sys, os
 sys.path.insert(0, os.path.join(os.path.dirname(os.path.abspath(__file__)), "..", "lib"))
 from vlib import *
@@ -435,7 +438,7 @@ def main(tier):
     ext_oer_part(run, model, captured, Rng(run.seed * 1000003 + 33), tier)
     log("C03: ext oer sweep %.1fs" % (time.time() - t0))
     tb = ["Coq 8.16.1 kernel", "axioms under Print Assumptions: " + (", ".join(sorted(axioms)) or "none (Closed under the global context)"),
-          "extraction: ExtrOcamlBasic only; OCaml 4.13.1", "lib/c03_util.py (independent variant generators), lib/modgen.py, harness/moddrv.c, gcc + ASan/UBSan"]
+          "extraction: ExtrOcamlBasic only; OCaml 4.13.1", "lib/c03_util.py, lib/c03_xval.py, lib/c05x_util.py (independent variant generators and expected values), lib/modgen.py, harness/moddrv.c, gcc + ASan/UBSan"]
     return run.finish("proof", (nthm, ndis), trusted_base=tb,
                       checker_cmd="make -C /verif all && coqc -Q coq A1 coq/Props/Properties_C03.v",
                       extra_cov={"theorems": names, "modules": len(mods),
